@@ -199,12 +199,16 @@ def do_check(args, engine, lanes, prop, master_seed, t_start, ctx):
     # the budget: slowness of a loaded machine is not a property of the code
     slow = [i for i, r in enumerate(results) if r is not None and r.get("status") == "timeout"]
     if slow:
-        log(f"{len(slow)} run(s) hit the watchdog; re-running them with a 5x budget")
-        for i in slow[:8]:
-            jobs[i] = dict(jobs[i], timeout=5 * jobs[i].get("timeout", ctx.get("timeout", 180)))
-            results[i] = lanes.run([jobs[i]])[0]
-            if results[i].get("status") == "ok":
-                bad.remove(i) if i in bad else None
+        log(f"{len(slow)} run(s) hit the watchdog; re-running {min(len(slow), 3)} of them with a 3x budget")
+        for i in slow[:3]:
+            jobs[i] = dict(jobs[i], timeout=3 * jobs[i].get("timeout", ctx.get("timeout", 180)))
+        again = lanes.run([jobs[i] for i in slow[:3]])
+        for i, r in zip(slow[:3], again):
+            results[i] = r
+            if r.get("status") == "ok" and i in bad:
+                bad.remove(i)
+        for i in slow[3:]:
+            results[i] = None  # not re-examined: one confirmed hang is enough to report
     executed = [(j, r) for j, r in zip(jobs, results) if r is not None]
     search_s = time.monotonic() - t_search
     log(f"search: {len(executed)}/{len(jobs)} jobs in {search_s:.1f}s, {len(bad)} not ok")
@@ -239,7 +243,7 @@ def do_check(args, engine, lanes, prop, master_seed, t_start, ctx):
         if r.get("status") in ("timeout", "died"):
             r2 = lanes.run([j])[0]
             if r.get("status") == "timeout" and r2.get("status") == "ok":
-                log(f"a run timed out even with the 5x budget but finished on another attempt: treated as slowness, not as a violation: {canon(j)[:200]}")
+                log(f"a run timed out even with the 3x budget but finished on another attempt: treated as slowness, not as a violation: {canon(j)[:200]}")
                 continue
             if r2.get("status") != r.get("status"):
                 log(f"HARNESS-ERROR run ended as {r.get('status')} once and {r2.get('status')} on re-run: {canon(j)[:400]}\n{r.get('stderr', '')[-1500:]}")
